@@ -168,6 +168,10 @@ pub struct Ctx {
     pub strict: bool,
 }
 
+pub fn json_string(s: &str) -> String {
+    serde_json::Value::String(s.to_string()).to_string()
+}
+
 pub fn verif_dir() -> String {
     std::env::var("VERIF_DIR").unwrap_or_else(|_| "/verif".to_string())
 }
